@@ -26,6 +26,94 @@ func TestVerif_C25(t *testing.T) {
 	for ep := 0; ep < eps && rec.Violations() < 20; ep++ {
 		vfC25Episode(rec, ep)
 	}
+	for ep := 0; ep < evid.Pick(12, 200) && rec.Violations() < 20; ep++ {
+		vfC25OverLimitFile(rec, ep)
+	}
+}
+
+// vfC25OverLimitFile: the file is ALREADY larger than the limit (the limit was introduced or lowered
+// at runtime, or the file was there before the export). A SETATTR(size) to a size above the limit
+// still fails with FBIG and leaves the file unchanged - also when it would shrink the file; a size
+// within the limit is accepted as without a limit.
+func vfC25OverLimitFile(rec *evid.Rec, ep int) {
+	rng := evid.Rng(2525, int64(ep))
+	m := []int64{100, 4096, 65537}[ep%3]
+	how := []string{"file-older-than-export", "UpdatePolicyOptions", "UpdateExportOptions"}[(ep/3)%3]
+	big := int(m)*3 + rng.Intn(50)
+	data := bytes.Repeat([]byte{7}, big)
+	fs := refs.New()
+	fs.PlantFile("/f", data, 0666, 0, 0)
+	o := ExportOptions{AttrCacheTimeout: 1}
+	if how == "file-older-than-export" {
+		o.MaxFileSize = m
+	}
+	srv, err := vfNewSrv(fs, o)
+	if err != nil {
+		rec.Infra(err.Error())
+		return
+	}
+	defer srv.Close()
+	switch how {
+	case "UpdatePolicyOptions":
+		p := *srv.nfs.policy.Load()
+		p.MaxFileSize = m
+		srv.nfs.UpdatePolicyOptions(p)
+	case "UpdateExportOptions":
+		eo := srv.nfs.GetExportOptions()
+		eo.MaxFileSize = m
+		srv.nfs.UpdateExportOptions(eo)
+	}
+	c := srv.client()
+	root, _ := c.mnt("/")
+	l, _ := c.lookup(root, "f")
+	if l == nil || l.Status != 0 {
+		rec.Infra("lookup")
+		return
+	}
+	fh := vfFH(l.FH)
+	cur := big
+	for i := 0; i < 6; i++ {
+		var ns int64
+		switch rng.Intn(4) {
+		case 0:
+			ns = m + 1
+		case 1:
+			ns = m + 1 + int64(rng.Intn(cur-int(m))) // above the limit, not above the current size
+		case 2:
+			ns = int64(cur) + 1 + int64(rng.Intn(100))
+		default:
+			ns = int64(cur) - 1
+		}
+		if ns <= m {
+			ns = m + 1
+		}
+		rec.Eval(1)
+		r, _ := c.setattr(fh, xdrw.Sattr3{Size: xdrw.U64p(uint64(ns))})
+		if r == nil {
+			rec.Violate("C25/no-reply", "SETATTR", nil)
+			return
+		}
+		desc := fmt.Sprintf("file of %d bytes, MaxFileSize=%d (%s): SETATTR size=%d", cur, m, how, ns)
+		rel := "shrink-to-over-limit"
+		if ns > int64(cur) {
+			rel = "grow"
+		}
+		if r.Status != 27 {
+			rec.Violate("C25/over-limit-not-FBIG/op=SETATTR/file-already-over-limit/"+rel, fmt.Sprintf("%s answered status %d, want NFS3ERR_FBIG", desc, r.Status), nil)
+		}
+		if b, _ := fs.Bytes("/f"); len(b) != cur {
+			rec.Violate("C25/refused-request-changed-file/file-already-over-limit", fmt.Sprintf("%s: the file is %d bytes now", desc, len(b)), nil)
+			cur = len(b)
+			if cur <= int(m) {
+				break
+			}
+		}
+		rec.Distinct(fmt.Sprintf("over-limit-file|m=%d|%s|%s|st=%d", m, how, rel, r.Status))
+	}
+	// bringing it within the limit is an ordinary request
+	if r, _ := c.setattr(fh, xdrw.Sattr3{Size: xdrw.U64p(uint64(m))}); r == nil || r.Status != 0 {
+		rec.Violate("C25/within-limit-behaves-differently/op=SETATTR/file-already-over-limit", fmt.Sprintf("SETATTR size=%d (the limit itself) on an over-limit file answered %d", m, vfSt(r)), nil)
+	}
 }
 
 func vfC25Episode(rec *evid.Rec, ep int) {
